@@ -63,3 +63,85 @@ func c15Partial(r *Result) {
 		r.Stats["partial-pipelining-scenarios"]++
 	}
 }
+
+// c15Trickle: ReadTimeout bounds the wait for a whole REQUEST, not the gap between two packets of it. A peer delivers one
+// request in five pieces 0.6 T apart (every gap below T, the whole 2.4 T): the deadline armed when the server began to wait
+// must end the session around T - the request must not be answered; the same request in five pieces 0.15 T apart is answered.
+func c15Trickle(r *Result) {
+	const T = 300 * time.Millisecond
+	for _, c := range []struct {
+		gap    time.Duration
+		answer bool
+	}{{T * 6 / 10, false}, {T * 15 / 100, true}} {
+		for _, done := range []int{0, 2} {
+			key := fmt.Sprintf("after %d prompt exchange(s), a request delivered in 5 pieces %v apart (ReadTimeout %v)", done, c.gap, T)
+			r.eval(key, true)
+			s := &kmip.Server{ReadTimeout: T, WriteTimeout: T}
+			sc, cc := rec.Pipe()
+			rc := rec.NewConn(sc, 1)
+			l := rec.NewListener()
+			l.Push(rec.AcceptStep{Conn: rc})
+			init := make(chan struct{})
+			ret := make(chan error, 1)
+			go func() { ret <- s.Serve(l, init) }()
+			<-init
+			var b bytes.Buffer
+			mk := &kmip.Request{Header: kmip.RequestHeader{Version: kmip.ProtocolVersion{Major: 1, Minor: 4}, BatchCount: 1},
+				BatchItems: []kmip.RequestBatchItem{{Operation: kmip.OPERATION_DISCOVER_VERSIONS, RequestPayload: kmip.DiscoverVersionsRequest{}}}}
+			_ = kmip.NewEncoder(&b).Encode(mk)
+			raw := b.Bytes()
+			_ = cc.SetDeadline(time.Now().Add(6 * time.Second))
+			dec := kmip.NewDecoder(cc)
+			obs := ""
+			for i := 0; i < done; i++ {
+				var resp kmip.Response
+				_, _ = cc.Write(raw)
+				if err := dec.Decode(&resp); err != nil {
+					obs = fmt.Sprintf("prompt exchange %d not answered: %v", i+1, err)
+				}
+			}
+			start := time.Now()
+			piece := len(raw) / 5
+			var werr error
+			for i := 0; i < 5 && werr == nil; i++ {
+				end := (i + 1) * piece
+				if i == 4 {
+					end = len(raw)
+				}
+				_, werr = cc.Write(raw[i*piece : end])
+				if i < 4 {
+					time.Sleep(c.gap)
+				}
+			}
+			var resp kmip.Response
+			_ = cc.SetReadDeadline(time.Now().Add(2 * time.Second))
+			derr := dec.Decode(&resp)
+			if obs == "" {
+				switch {
+				case derr == nil:
+					obs = "answered"
+				default:
+					select {
+					case <-rc.Closed():
+						obs = "dropped"
+					case <-time.After(time.Second):
+						obs = fmt.Sprintf("neither answered nor dropped (%v)", derr)
+					}
+				}
+			}
+			want := "dropped"
+			if c.answer {
+				want = "answered"
+			}
+			if obs != want {
+				r.find(Finding{Kind: "violation", What: "ReadTimeout did not act as a deadline for the whole request (armed once before waiting for it)", Input: key, Expect: want, Actual: fmt.Sprintf("%s after %v", obs, time.Since(start).Round(10*time.Millisecond))})
+			}
+			cc.Close()
+			ctx, cancel := context.WithTimeout(context.Background(), 5*time.Second)
+			_ = s.Shutdown(ctx)
+			cancel()
+			<-ret
+			r.Stats["trickle-scenarios"]++
+		}
+	}
+}
